@@ -20,6 +20,43 @@ PROPS = {
         "explanation": "Lean theorems state the documented effect and totality of every token step for all sequences and parameters; "
                        "the model is tied to src/config/processing.rs and src/config/decoding.rs by running both on the same generated cases.",
     },
+    "C03": {
+        "level": "proof",
+        "rule": "BPE ops (one piece on a tokenizer without normalization/split/specials): exhaustively every ordered choice of up to 2 "
+                "(quick) / 3 (thorough) merges over {a,b,c} in byte and character mode x all strings of length 1..5 / 1..7, each (quick: "
+                "lengths >= 4) also behind 193 inert units to force the heap strategy; randomly: multi-byte alphabets, up to 30 merges, "
+                "random rank order and ids, byte/char mode, with/without end-of-word suffix, pieces of 1..24 and 150..600 units; shipped "
+                "cl100k, gpt2, llama2, clip on corpus words. Judged by the naive canonical-merge specification (Spec.bpePieceSpec). "
+                "Non-trivial: at least one token or an error returned; distinct = distinct request lines.",
+        "trusted_base": CORE_TB + ["modelled, not verified: orx-priority-queue d-ary heap as 'minimum by (rank,start) among live nodes in text "
+                                   "order' (prior/after links abstracted to list adjacency; link corruption would show as a correspondence "
+                                   "failure, not as a proof failure), hashbrown maps as finite maps"],
+        "assumptions": ["merge ranks are u32 values (TokenRank = u32): hypothesis hr of the *_partial theorems; the unrestricted statements are "
+                        "false of the Nat-ranked model only for ranks above u32::MAX and are kept with their counterexample",
+                        "ENCODE_LINEAR_LIMIT and the strategy comparison are regenerated from the source on every run"],
+        "explanation": "Lean theorems: the cached-rank linear loop on a shared scratch buffer and the heap loop both equal the naive "
+                       "lowest-rank-first leftmost merge for every vocabulary, piece and unit list (bytes or characters, suffix on the last "
+                       "unit), hence strategy independence at every length; the shortcut fires for vocabulary entries; the canonical merge is "
+                       "a fixpoint that preserves the text. Tied to src/encoder/bytepair.rs by differential runs.",
+    },
+    "C04": {
+        "level": "proof",
+        "rule": "UNI ops (one piece on a tokenizer without normalization/split/specials): exhaustive pieces up to length 5 (quick) / 8 "
+                "(thorough) over {a,b} and up to 5/6 over {a,é,語} x generated scored vocabularies (many exact ties, multi-byte characters, "
+                "holes), random pieces of 1..24 and 150..600 characters, shipped xlnet (both sources) and nai-t5 on corpus words with real "
+                "scores. Judged by an independent dynamic program over all segmentations (Spec.uniCheck: optimal cost when segmentable; "
+                "token/hole walk otherwise). Non-trivial: at least one token or an error returned.",
+        "trusted_base": CORE_TB + ["IEEE-754: f64 subtraction is monotone and <= is a total preorder without NaN (LawfulCost laws are proved "
+                                   "for Int and assumed for Float, which is used only in the driver, never in a theorem)",
+                                   "modelled, not verified: hashbrown maps as finite maps"],
+        "assumptions": ["vocabulary ids differ from u32::MAX; entries are at most max_token_bytes long (constructor facts, hypotheses hid/hmax)",
+                        "optimality is proved inside BoundedCost (scores <= 0, every partial segmentation costs < 1e6); outside it the code "
+                        "genuinely fails (known finding F13, Lean witness sentinel_counterexample)"],
+        "explanation": "Lean theorems for every cost type satisfying the laws: the Viterbi table, back-walk and reversal yield a walk whose "
+                       "tokens match the text and whose holes are exactly units at whose end no entry ends (unigram_walk, no cost "
+                       "hypotheses), and inside BoundedCost a minimal-cost segmentation whenever one exists (viterbi_optimal_partial). "
+                       "Tied to src/encoder/unigram.rs by differential runs.",
+    },
     "C05": {
         "level": "proof",
         "rule": "WP ops (one word on a tokenizer without normalization/split/specials): exhaustive words up to length 5 (quick) / 8 "
